@@ -228,6 +228,7 @@ func TestReleaseArrival(t *testing.T) {
 					c := newController()
 					s := newScenario(t, c, names)
 					s.settle = func() { s.settleRealTime(3*time.Millisecond, 300*time.Millisecond) }
+					s.noClock = true
 					c.emit = s.ev
 					limiter.VerifPoint = nil
 					dl, busy, err := newDelegate(1, rep%2 == 1)
@@ -409,6 +410,107 @@ func TestUnblockRace(t *testing.T) {
 					s.procs[n].cancel()
 				}
 				trace++
+			}
+		}
+	}
+}
+
+// TestCancelArrival runs, in real time, an arrival at a full backlog while one of the queued callers is giving up:
+// the backlog is filled by callers that arrive one after the other (each asleep before the next), a further caller
+// is parked inside its attempt on the delegate (holding the limiter mutex on this tree), a queued caller's context
+// is cancelled (its give-up waits for the mutex: it is still blocked, still in the backlog) and the arrival is let
+// go: it found the backlog at its maximum of blocked callers and is refused (C12; cfg.strictfull).
+func TestCancelArrival(t *testing.T) {
+	w := newNdWriter(t, filepath.Join(outDir(t), "cancelarrival_trace.ndjson"))
+	defer w.close()
+	trace := 0
+	for rep := 0; rep < envInt("VERIF_N", 2); rep++ {
+		for _, qmax := range []int{1, 2, 3} {
+			for _, point := range []string{"acq.enter", "acq.exit"} {
+				for _, ord := range []string{"fifo", "lifo"} {
+					names := []string{"h"}
+					for i := 1; i <= qmax; i++ {
+						names = append(names, fmt.Sprintf("w%d", i))
+					}
+					names = append(names, "a1", "a2")
+					c := newController()
+					s := newScenario(t, c, names)
+					s.settle = func() { s.settleRealTime(3*time.Millisecond, 300*time.Millisecond) }
+					s.noClock = true
+					c.emit = s.ev
+					limiter.VerifPoint = nil
+					dl, busy, err := newDelegate(1, rep%2 == 1)
+					if err != nil {
+						t.Fatal(err)
+					}
+					gl := &GatedLimiter{c: c, inner: dl}
+					reg := newRecordingRegistry()
+					o := limiter.OrderingFIFO
+					if ord == "lifo" {
+						o = limiter.OrderingLIFO
+					}
+					s.lim = limiter.NewQueueBlockingLimiterFromConfig(gl, limiter.QueueLimiterConfig{Ordering: o, MaxBacklogSize: qmax, MaxBacklogTimeout: -1, BacklogEvictDoneCtx: true, MetricRegistry: reg})
+					s.extra = func() J {
+						q, _ := reg.GaugeByID(core.MetricQueueSize)
+						return J{"busy": busy(), "gauge": int(dl.VerifInFlight()), "q": q, "t": 0}
+					}
+					cfg := wrapCfg{Kind: "queue", Ctor: "cancel-arrival/" + point, Limit: 1, QMax: qmax, QTimeout: 0, EvictCtx: true, Ordering: ord, Expect: ord, Procs: names, StrictFull: true}
+					w.write(J{"ev": "Reset", "trace": trace, "cfg": cfg, "obs": s.observe()})
+					i := 0
+					do := func(st schedStep) bool {
+						if err := s.apply(st); err != nil {
+							t.Logf("trace %d: %v", trace, err)
+							return false
+						}
+						i++
+						w.write(J{"ev": "Step", "trace": trace, "i": i, "step": st, "evs": s.events(), "obs": s.observe()})
+						return true
+					}
+					for _, n := range names[:1+qmax] {
+						do(schedStep{A: "start", P: n, Call: "acquire"})
+					}
+					c.mu.Lock()
+					c.enabled[point] = true
+					c.mu.Unlock()
+					do(schedStep{A: "start", P: "a1", Call: "acquire"})
+					c.mu.Lock()
+					c.enabled = map[string]bool{}
+					c.mu.Unlock()
+					// one, or (every other repetition) all of the queued callers give up
+					ncancel := 1
+					if rep%2 == 1 {
+						ncancel = qmax
+					}
+					for k := 1; k <= ncancel; k++ {
+						do(schedStep{A: "cancel", P: fmt.Sprintf("w%d", k)})
+					}
+					do(schedStep{A: "pass", P: "a1", Gate: point})
+					do(schedStep{A: "start", P: "a2", Call: "acquire"}) // the places are free now
+					for round := 0; round < 5; round++ {
+						progressed := false
+						for _, n := range names {
+							if s.procs[n].state == "granted" {
+								do(schedStep{A: "start", P: n, Call: "release", Outcome: "success"})
+								progressed = true
+							}
+						}
+						if !progressed {
+							break
+						}
+					}
+					for _, n := range names[1:] {
+						if s.procs[n].state == "calling" {
+							do(schedStep{A: "cancel", P: n})
+						}
+					}
+					w.write(J{"ev": "End", "trace": trace, "i": i + 1, "obs": s.observe()})
+					c.disableAll()
+					c.passAll()
+					for _, n := range names {
+						s.procs[n].cancel()
+					}
+					trace++
+				}
 			}
 		}
 	}
